@@ -223,6 +223,9 @@ func serve(ln net.Listener, cfg *tls.Config, mode string, delay time.Duration) {
 	}
 	defer c.Close()
 	c.SetDeadline(time.Now().Add(ioDeadline))
+	if mode == "wait-first" {
+		c.SetDeadline(time.Now().Add(speaksFirstDeadline))
+	}
 	if mode == "abort" {
 		buf := make([]byte, 64)
 		c.Read(buf)
